@@ -276,7 +276,7 @@ pub fn run_lib(ctx: &Ctx, rep: &mut Report) {
     rep.evaluations += cnt;
     rep.note("VLQ part: exhaustive over [-2^22, 2^22] plus isize boundary values and ±2^k±1");
     // part 2: writer histories
-    let n = ctx.budget(30_000, 2_000_000);
+    let n = ctx.budget(200_000, 4_000_000);
     for case in 0..n {
         let mut rng = ctx.rng("writer", case);
         let (ops, mapper) = gen_history(&mut rng);
